@@ -600,8 +600,37 @@ class T:
 
 COQTY = {'path': 'bytes', 'bytes': 'bytes', 'int': 'Z', 'optpath': 'option bytes', 'remove': 'bytes -> W -> W * ores unit'}
 
+# the calls each helper is expected to make (callee as written; `X.m` with X a local file/hash object is listed as `.m`).
+# The statement translator refuses every call it has no rule for anyway; this table pins the SET, so that a helper that starts
+# calling something else (an encoder, a normaliser, another helper of the package) — or stops calling something — falls back
+# even if a rule for that callee exists.
+EXPECTED_CALLS = {
+    'ensure_tree': {'os.makedirs', 'os.path.isdir'},
+    'delete_if_exists': {'remove'},
+    'write_to_tempfile': {'ensure_tree', 'tempfile.mkstemp', 'memoryview', 'len', 'os.write', 'os.close'},
+    'compute_file_checksum': {'hashlib.new', 'open', 'iter', '.read', '.update', 'time.sleep', '.hexdigest'},
+    'last_bytes': {'open', '.seek', '.tell', '.read'},
+}
+
+def call_set(node):
+    params = {a.arg for a in node.args.args}
+    out = set()
+    for n in ast.walk(node):
+        if isinstance(n, ast.Call):
+            f = n.func
+            if isinstance(f, ast.Attribute) and isinstance(f.value, ast.Name) and f.value.id not in ('os', 'errno', 'tempfile', 'hashlib', 'time') \
+                    and f.value.id not in params:
+                out.add('.' + f.attr)          # method of a local object (file object, hash object)
+            else:
+                out.add(ast.unparse(f))
+    return out
+
 def translate(tree, fname, params, returns_world, rty):
     node = find_def(tree, fname)
+    got = call_set(node)
+    if got != EXPECTED_CALLS[fname]:
+        raise GenError('%s: the set of calls changed: unexpected %s, missing %s'
+                       % (fname, sorted(got - EXPECTED_CALLS[fname]), sorted(EXPECTED_CALLS[fname] - got)))
     if [a.arg for a in node.args.args] != [p for p, _ in params]:
         raise GenError('%s: parameter list changed' % fname)
     if node.args.vararg or node.args.kwarg or node.args.kwonlyargs or node.decorator_list:
